@@ -114,6 +114,15 @@ class Model:
             self._walk(tree.body, mod, None, mod, rel, None)
         self._finish_classes()
         self.flattener = None
+        # source normalisation (DESIGN.md 11.2a): desugar, inline new helpers, normalise call spelling
+        if not os.environ.get("VERIF_NO_RENAMES"):
+            from .flatten import undo_private_renames
+
+            undo_private_renames(self)
+        if not os.environ.get("VERIF_NO_DESUGAR"):
+            from .flatten import desugar
+
+            desugar(self)
         if not os.environ.get("VERIF_NO_FLATTEN"):
             from .flatten import flatten_model
 
@@ -122,10 +131,6 @@ class Model:
             from .flatten import normalize_calls
 
             normalize_calls(self)
-        if not os.environ.get("VERIF_NO_DESUGAR"):
-            from .flatten import desugar
-
-            desugar(self)
 
     # ------------------------------------------------------------------ building
     def _walk(self, body, prefix, cls, mod, path, parent_fn):
